@@ -584,6 +584,17 @@ fn run_case(c: &Case) -> CaseResult {
                     if ret == "none" && w.now < start + d {
                         oracle.push(("C11".into(), format!("wait_timeout({} ns) reported 'still running' after only {} ns", d, w.now - start)));
                     }
+                    // "reports the exit within roughly a tenth of a second": every nap is followed by a status check, so an exit
+                    // during the last nap is seen by this very call
+                    if ret == "none" && w.exited() && !w.gone() {
+                        let last_wp = new_calls.iter().rposition(|c| c.starts_with("wp:"));
+                        let last_sleep = new_calls.iter().rposition(|c| c.starts_with("sleep:"));
+                        if let (Some(sl), wp) = (last_sleep, last_wp) {
+                            if wp.map_or(true, |i| i < sl) {
+                                oracle.push(("C11".into(), format!("wait_timeout({} ns) reported 'still running' although the child had exited during its last nap: no status check followed that nap", d)));
+                            }
+                        }
+                    }
                     let nwp = w.waitpids - wps_before;
                     if (nwp as u64) > 9 + d / (100 * MS) {
                         oracle.push(("C11".into(), format!("wait_timeout({} ns) issued {} status checks (bound {})", d, nwp, 9 + d / (100 * MS))));
